@@ -389,7 +389,7 @@ func checkC13(c *Ctx) {
 		}
 		pos := c.Pos(m.Fset, fn.Decl.Pos())
 		ls := &loopSum{p: ir.NewPrinter(pp), home: pp}
-		sum, why := ls.summarise(n.Func(fn))
+		sum, why := ls.summarise(canonLoops(n.Func(fn)))
 		if sum == "" {
 			r.Undecided("C13.a", "slice."+name, "summary", pos, "the body is outside the eight loop idioms ("+why+"): "+short(ir.String(pp, n.Func(fn)), 200)+" — expected "+spec.want[0]+" ("+spec.why+")")
 			continue
@@ -417,4 +417,118 @@ func checkC13(c *Ctx) {
 // checkFOISlice: FOI restricted to pkg/slice/slice.foi.
 func checkFOISlice(c *Ctx) {
 	checkFOIFiles(c, "FOI", []string{"slice"})
+}
+
+// canonLoops rewrites two loop spellings into the ones the idioms are stated in (both are equalities of Go, no
+// property depends on the choice):
+//   - `for i := 0; i < len(X); i++ { … X[i] … }` whose body mentions i only as the index of X is
+//     `for _, e := range X { … e … }` (X a parameter or a local the body does not assign);
+//   - an accumulator initialised with make([]T, 0) / make([]T, 0, cap) is the empty list (capacity is not
+//     observable through the functions' results).
+func canonLoops(t ir.Term) ir.Term {
+	return ir.Rewrite(t, func(x ir.Term) (ir.Term, bool) {
+		switch y := x.(type) {
+		case *ir.AssignT:
+			if y.Op == ":=" {
+				if app, ok := y.RHS.(*ir.App); ok && (len(app.Args) == 2 || len(app.Args) == 3) {
+					if b, ok := app.Fun.(*ir.Builtin); ok && b.Name == "make" {
+						if tl, ok := app.Args[0].(*ir.TypeLit); ok {
+							if _, isSlice := tl.Type.Underlying().(*types.Slice); isSlice {
+								if lit, ok := app.Args[1].(*ir.Lit); ok && lit.Val == "0" {
+									return &ir.AssignT{LHS: y.LHS, RHS: &ir.Zero{Type: tl.Type}, Op: ":="}, true
+								}
+							}
+						}
+					}
+				}
+			}
+		case *ir.LoopT:
+			if y.Over != nil || y.L == nil {
+				return nil, false
+			}
+			ini, ok1 := y.Init.(*ir.AssignT)
+			post, ok2 := y.Post.(*ir.AssignT)
+			cond, ok3 := y.Cond.(*ir.BinOp)
+			if !ok1 || !ok2 || !ok3 || ini.Op != ":=" || post.Op != "++" || cond.Op != "<" {
+				return nil, false
+			}
+			iv, ok := isLocal(ini.LHS)
+			if !ok {
+				return nil, false
+			}
+			if lit, ok := ini.RHS.(*ir.Lit); !ok || lit.Val != "0" {
+				return nil, false
+			}
+			if v, ok := isLocal(post.LHS); !ok || v != iv {
+				return nil, false
+			}
+			if v, ok := isLocal(cond.L); !ok || v != iv {
+				return nil, false
+			}
+			ln, ok := cond.R.(*ir.App)
+			if !ok || len(ln.Args) != 1 {
+				return nil, false
+			}
+			if b, ok := ln.Fun.(*ir.Builtin); !ok || b.Name != "len" {
+				return nil, false
+			}
+			src := ln.Args[0]
+			var srcVar *types.Var
+			switch sv := src.(type) {
+			case *ir.Param:
+				srcVar = sv.Obj
+			case *ir.Local:
+				srcVar = sv.Obj
+			default:
+				return nil, false
+			}
+			sl, ok := srcVar.Type().Underlying().(*types.Slice)
+			if !ok {
+				return nil, false
+			}
+			// every mention of i is X[i]; X is not assigned in the body
+			okUse := true
+			ir.Walk(y.Body, func(z ir.Term) bool {
+				switch w := z.(type) {
+				case *ir.Index:
+					if v, ok := isLocal(w.I); ok && v == iv && sameVarTerm(w.X, srcVar) {
+						return false
+					}
+				case *ir.Local:
+					if w.Obj == iv {
+						okUse = false
+					}
+				case *ir.AssignT:
+					if sameVarTerm(w.LHS, srcVar) {
+						okUse = false
+					}
+				}
+				return okUse
+			})
+			if !okUse {
+				return nil, false
+			}
+			ev := types.NewVar(y.Pos(), srcVar.Pkg(), "e", sl.Elem())
+			body := ir.Rewrite(y.Body, func(z ir.Term) (ir.Term, bool) {
+				if w, ok := z.(*ir.Index); ok {
+					if v, ok := isLocal(w.I); ok && v == iv && sameVarTerm(w.X, srcVar) {
+						return &ir.Local{Obj: ev}, true
+					}
+				}
+				return nil, false
+			})
+			return &ir.LoopT{L: &ir.Loop{Val: ev, Stmt: y.L.Stmt}, Over: src, Body: canonLoops(body)}, true
+		}
+		return nil, false
+	})
+}
+
+func sameVarTerm(t ir.Term, v *types.Var) bool {
+	switch x := t.(type) {
+	case *ir.Param:
+		return x.Obj == v
+	case *ir.Local:
+		return x.Obj == v
+	}
+	return false
 }
